@@ -417,48 +417,35 @@ def fileStem (n : List Char) : List Char :=
     if before = [] then n else before
   else n
 
-/-- `Path::extension` of a file name: `rsplit_file_at_dot` + `before.and(after)` -/
-def extensionOf (n : List Char) : Option (List Char) :=
-  if n = ['.', '.'] then none
-  else if '.' ∈ n then
-    let before := ((n.reverse.dropWhile (· ≠ '.')).drop 1).reverse
-    if before = [] then none else some (n.reverse.takeWhile (· ≠ '.')).reverse
-  else none
-
 def rsExt : List Char := ['.', 'r', 's']
 
-/-- `PathBuf::set_extension("rs")`: truncate right after the stem of the file name, append ".rs";
-unchanged (returns `false`) when there is no file name -/
-def setExtensionRs (p : List Char) : List Char :=
-  match fileName p with
-  | none => p
-  | some n => (lastComponentRev p).2.reverse ++ fileStem n ++ rsExt
-
-/-- `Path::with_extension("rs")` as std implements it: copy the path *without the bytes of the old
-extension* (the dot stays; the bytes are cut from the end of the whole string), then `set_extension`.
-For a file name `..x` the copy is `..`, which has no file name any more, so the result is `..`
-(observed with the toolchain in use; `std::path` is exercised against this model by the harness).
-The cut is modelled on characters; on bytes it can end inside a character, which `set_extension`
-then discards together with the rest of the old extension. -/
-def withExtensionRs (p : List Char) : List Char :=
-  match (fileName p).bind extensionOf with
-  | none => setExtensionRs p
-  | some ext => setExtensionRs (p.take (p.length - ext.length))
-
-/-- `dir.join(name)` for a relative `name` -/
+/-- `dir.join(name)` / `PathBuf::push(name)` for a relative `name` -/
 def pathJoin (dir name : List Char) : List Char :=
   match dir.getLast? with
   | none => name
   | some c => if c = '/' then dir ++ name else dir ++ '/' :: name
 
-/-- `dest_file_path` of `generate_code`; `none` = "Failed to find a file name in the provided query path." -/
+/-- `Path::parent` of a path that has a file name: the text before the last component, without the
+separators and `.` components that end it — but a root `/` and a leading `.` stay -/
+def parentOf (p : List Char) : List Char :=
+  let before := (lastComponentRev p).2          -- reversed
+  let t := skipTrail before
+  if t = [] ∧ before.getLast? = some '/' then ['/'] else t.reverse
+
+/-- `Path::with_file_name(name)` (= `pop` + `push`) on a path that has a file name -/
+def withFileName (p name : List Char) : List Char := pathJoin (parentOf p) name
+
+/-- `dest_file_path` of `generate_code`: the file is named `<file_stem of the query file name>.rs`
+and lies in the output directory, or replaces the query's file name;
+`none` = "Failed to find a file name in the provided query path." -/
 def destPath (outputDirectory : Option (List Char)) (queryPath : List Char) : Option (List Char) :=
   match fileName queryPath with
   | none => none
   | some name =>
+    let destName := fileStem name ++ rsExt
     match outputDirectory with
-    | some dir => some (withExtensionRs (pathJoin dir name))
-    | none => some (withExtensionRs queryPath)
+    | some dir => some (pathJoin dir destName)
+    | none => some (withFileName queryPath destName)
 
 /-! ### the effects of `generate_code` -/
 
